@@ -215,6 +215,27 @@ def primes_upto(n):
         if s[i]: s[i * i::i] = bytearray(len(s[i * i::i]))
     return [i for i in range(n + 1) if s[i]]
 
+def prodtree(xs):
+    """product of a list of ints by a balanced tree (quasi-linear for large results)"""
+    xs = list(xs)
+    if not xs: return 1
+    while len(xs) > 1:
+        xs = [xs[i] * xs[i + 1] if i + 1 < len(xs) else xs[i] for i in range(0, len(xs), 2)]
+    return xs[0]
+
+def comb_by_primes(n, k, primes=None):
+    """C(n,k) from Legendre's formula over the primes up to n (independent of math.comb; fast for huge n, k)"""
+    if k < 0 or k > n: return 0
+    ps = primes if primes is not None else primes_upto(n)
+    fs = []
+    for p in ps:
+        if p > n: break
+        e = 0; q = p
+        while q <= n:
+            e += n // q - k // q - (n - k) // q; q *= p
+        if e: fs.append(p ** e)
+    return prodtree(fs)
+
 def mpf_value(prec, exp, size, mag):
     """exact rational value of an mpf dump"""
     if size == 0: return Fraction(0)
@@ -222,6 +243,8 @@ def mpf_value(prec, exp, size, mag):
     return -v if size < 0 else v
 
 def selftest():
+    assert prodtree(range(1, 30)) == math.factorial(29) and comb_by_primes(1000, 377) == math.comb(1000, 377) and comb_by_primes(67, 0) == 1 and comb_by_primes(4099, 4098) == 4099
+
     import random
     r = random.Random(7)
     for _ in range(3000):
